@@ -1,5 +1,6 @@
 """C11 Uniform positioning: equivalent constraints give identical geometry (attribute hygiene and wiring)."""
 import re
+from props import geomalg
 
 from sa import rules as R, hirq, algebra as A
 from sa.prog import P, Callee, op_place, op_const, const_str
@@ -516,7 +517,7 @@ def emission_algebra(prog, chk):
                         fields[FIELD["y"][role]] = ("some", {SYM[role] + "y": Fraction(1)})
                     fields["dx"] = ("some", {"DX": Fraction(1)}) if with_d else ("none",)
                     fields["dy"] = ("some", {"DY": Fraction(1)}) if with_d else ("none",)
-                    fields["shape"] = ("str", shape)
+                    fields["shape"] = geomalg.ctor_field(prog, "svgdx::position::Position::new", shape, "shape")
                     # a line keeps end points that are written as x1 / y1 / x2 / y2 (it has a direction); the case here
                     # is the one where none is - the position came from x / y / xy, a centre, a size, another element
                     ev = A.Evaluator(prog, name_case=shape, transparent=("strp", "fstr"), watch=("set_attr",), absent=(("x1", "y1", "x2", "y2") if shape == "line" else ()))
@@ -586,7 +587,7 @@ def extraction_algebra(prog, chk):
                     summ = ev.summary(path)
                     got = summ["ret"] if summ else None
                     want = {f: ("none",) for ax_ in FIELD.values() for f in ax_.values()}
-                    want.update(dx=("none",), dy=("none",), shape=("str", shape))
+                    want.update(dx=("none",), dy=("none",), shape=geomalg.ctor_field(prog, "svgdx::position::Position::new", shape, "shape"))
                     for axis, roles, attrs in (("x", px, combo[:2]), ("y", py, combo[2:])):
                         for role, attr in zip(roles, attrs):
                             v = {"@" + attr: Fraction(2 if attr in ("r", "rx", "ry") else 1)}
